@@ -17,7 +17,7 @@ from vp.scen import systems as sc
 ID = "C16"
 LEVEL = "exploration"
 RULE = (
-    "full product of 7 mechanisms (free body, revolute pendulum, double pendulum, prismatic slider, point mass on "
+    "full product of 9 mechanisms (block on a belt = friction element with constant force reservoir and no normal contact, clamped pre-strained mixed rod on a non-arc-length reference, free body, revolute pendulum, double pendulum, prismatic slider, point mass on "
     "FixedDistance, two bodies with RigidConnection, synthetic contribution with g/gamma/c/tau blocks) x attachments "
     "(none, gravity, spring force form, spring compliance form, Kelvin-Voigt compliance, Maxwell, Motor/PD/PID on the "
     "mechanism's revolute joint) x contact scenarios on an extra ball (none, resting mu=0, sticking mu=.3 with "
@@ -44,13 +44,17 @@ def cases(tier, seed):
             continue
         if mech == "synth" and (att != "none" or init == "spin"):
             continue
+        if mech == "mixed_rod" and (att != "none" or con not in ("none", "slide_mu")):
+            continue
+        if mech == "belt" and (att != "none" or con not in ("none", "slide_mu", "stick_mu")):
+            continue
         if con.startswith("tip_plane") and (init == "spin" or mech in ("synth", "slider")):
             # spin would drive the tip into the support (inconsistent); the slider's prismatic joint makes the normal force indeterminate
             continue
         out.append({"kind": "consistent", "mech": mech, "attach": att, "contact": con, "init": init, "seed": seed})
     for bad in sc.INCONSISTENT:
         for mech in sc.MECHS:
-            if mech == "synth":
+            if mech in ("synth", "mixed_rod", "belt"):
                 continue
             if bad in ("joint_velocity", "joint_offset") and mech == "free":
                 continue
@@ -184,6 +188,31 @@ def check(case):
                         outcome.append("friction:stick_to_slip")
                         if np.linalg.norm(gFd) > 1e-6 and float(lF @ gFd) > -0.99 * nF * np.linalg.norm(gFd):
                             fails.append({"site": "Coulomb: force on the cone not opposite to gamma_F_dot0", "msg": str(cd), "data": cd})
+    # friction elements with a constant force reservoir (no normal contact): Coulomb's law with the element's own radius
+    if system.nla_F:
+        gamma_F_all = system.gamma_F(t, q, u)
+        gamma_F_dot_all = system.gamma_F_dot(t, q, u, a)
+        for contr in system.get_contribution_list("gamma_F"):
+            for i_N, i_F, res in contr.friction_laws:
+                if len(i_N) > 0:
+                    continue
+                iF = contr.la_FDOF[i_F]
+                lF, gF, gFd = la_F[iF], gamma_F_all[iF], gamma_F_dot_all[iF]
+                rad = float(res.r)
+                nF = float(np.linalg.norm(lF))
+                evals += 1
+                cd = {"element": contr.name, "la_F": lF, "gamma_F": gF, "gamma_F_dot": gFd, "reservoir": rad}
+                if nF > rad + 1e-6:
+                    fails.append({"site": "Coulomb (constant reservoir): |la_F0| > reservoir", "msg": str(cd), "data": cd})
+                if np.linalg.norm(gF) > 1e-8:
+                    want = -rad * gF / np.linalg.norm(gF)
+                    outcome.append("friction_element:slide")
+                    if float(np.max(np.abs(lF - want))) > 1e-5 * max(1.0, scale):
+                        fails.append({"site": "Coulomb (constant reservoir): sliding friction force != -reservoir gamma_F/|gamma_F|", "msg": str(cd), "data": cd})
+                elif nF < rad - 1e-4:
+                    outcome.append("friction_element:stick")
+                    if float(np.max(np.abs(gFd))) > 1e-4 * max(1.0, scale):
+                        fails.append({"site": "Coulomb (constant reservoir): sticking element has gamma_F_dot0 != 0", "msg": str(cd), "data": cd})
     stats["n_active_contacts"] = n_act
     oc = ["consistent:ok" if not fails else "consistent:fail"] + sorted(set(outcome))
     if "W_tau la_tau" in nontrivial_terms:
